@@ -67,6 +67,7 @@ type Term struct {
 // TermStore hash-conses terms for one path.
 type TermStore struct {
 	tab    map[string]*Term
+	ktab   map[termKey]*Term
 	nextID int
 	vars   []*Term
 	funs   map[string]string // uninterpreted function name -> declaration
@@ -74,7 +75,7 @@ type TermStore struct {
 }
 
 func NewTermStore() *TermStore {
-	return &TermStore{tab: map[string]*Term{}, funs: map[string]string{}}
+	return &TermStore{tab: map[string]*Term{}, ktab: map[termKey]*Term{}, funs: map[string]string{}}
 }
 
 func mask(w int) uint64 {
@@ -84,7 +85,37 @@ func mask(w int) uint64 {
 	return (uint64(1) << uint(w)) - 1
 }
 
+type termKey struct {
+	op         Op
+	w          int
+	val        uint64
+	hi, lo     int
+	name       string
+	a0, a1, a2 int
+	n          int
+}
+
 func (ts *TermStore) intern(t *Term) *Term {
+	if len(t.Args) <= 3 {
+		k := termKey{op: t.Op, w: t.W, val: t.Val, hi: t.Hi, lo: t.Lo, name: t.Name, n: len(t.Args)}
+		switch len(t.Args) {
+		case 3:
+			k.a2 = t.Args[2].ID
+			fallthrough
+		case 2:
+			k.a1 = t.Args[1].ID
+			fallthrough
+		case 1:
+			k.a0 = t.Args[0].ID
+		}
+		if o, ok := ts.ktab[k]; ok {
+			return o
+		}
+		ts.nextID++
+		t.ID = ts.nextID
+		ts.ktab[k] = t
+		return t
+	}
 	var sb strings.Builder
 	fmt.Fprintf(&sb, "%d:%d:%d:%d:%d:%s", t.Op, t.W, t.Val, t.Hi, t.Lo, t.Name)
 	for _, a := range t.Args {
